@@ -227,6 +227,9 @@ def paren(text: str) -> str:
 
 class FnTranslator:
     def __init__(self, fdef: ast.FunctionDef, spec: dict, module_defs: dict):
+        import py2lean_prepass                   # desugaring into the subset; the identity when nothing applies
+        self.prepass = {}
+        fdef = py2lean_prepass.run(fdef, getattr(fdef, '_module_tree', None), spec, self.prepass)
         self.f = fdef
         self.spec = spec
         self.module_defs = module_defs          # name -> ast.FunctionDef of module-level functions
@@ -1016,6 +1019,7 @@ def _find_function(tree: ast.Module, qualname: str):
         raise Unsupported(node, '%s is not a plain function' % qualname)
     if node.decorator_list:
         raise Unsupported(node, 'decorated function')
+    node._module_tree = tree                     # for the desugaring pre-pass (module constants, helpers)
     return node
 
 
@@ -1049,9 +1053,9 @@ def translate_source(src: str, specs: list, module_name: str, rel: str):
         try:
             fdef = _find_function(tree, spec['qualname'])
             info['lines'] = '%d-%d' % (fdef.lineno, fdef.end_lineno)
-            import py2lean_prepass               # desugaring into the subset (identity when nothing applies)
-            fdef = py2lean_prepass.run(fdef, tree, spec, info)
-            text = FnTranslator(fdef, spec, module_defs).emit()
+            tr = FnTranslator(fdef, spec, module_defs)
+            info.update(tr.prepass)              # which desugarings of py2lean_prepass were applied, if any
+            text = tr.emit()
         except (Unsupported, _Unknown, RecursionError) as e:
             # outside the subset: no definition is emitted, so the tie theorem of this function stops
             # checking (and is named by the audit); the other functions of the module are unaffected
